@@ -859,6 +859,12 @@ func (c *Conn) advanceFrame() (int, error) {
 
 	if frameType == continuationFrame || frameType == TextMessage || frameType == BinaryMessage {
 
+		// A new message starts counting at its first frame: when the application
+		// abandoned a fragmented message (NextReader discards the rest of it), the
+		// frames skipped since must not be charged to the message that follows.
+		if frameType != continuationFrame {
+			c.readLength = 0
+		}
 		c.readLength += c.readRemaining
 		// The readLength is negative when overflow, for a large readRemaining.
 		if c.readLimit > 0 && (c.readLength > c.readLimit || c.readLength < 0) {
